@@ -336,7 +336,13 @@ def run(tier, seed):
     except lifecycle.ModelError as e:
         raise T.HarnessError("specification automaton unavailable: %s" % e)
     acc.extra["model"] = dict(g["info"], actions=g["actions"])
-    ws = worlds(tier)
+    ws = []
+    for w in worlds(tier):
+        inst, why = T.try_get(w[0])
+        if inst is None:
+            acc.degrade("%s unavailable: %s" % (w[0], why))
+        else:
+            ws.append(w)
     tasks = [("bfs", w) for w in ws]
     sl = []
     d_all, d_one = (4, 5) if quick else (5, 6)
@@ -345,7 +351,7 @@ def run(tier, seed):
             sl.append(("sl", ("T23", side, 4, d_all, p)))
     for p in itertools.product(EVENTS, repeat=2):
         sl.append(("sl", ("T23", "A", 0, d_one, p)))
-    tasks = sorted(tasks, key=lambda t: -T.get(t[1][0]).ref.esize) + sl + [("prefork", (k,)) for k in sorted(PREFORK)]
+    tasks = sorted(tasks, key=lambda t: -T.hint(t[1][0]).ref.esize) + sl + [("prefork", (k,)) for k in sorted(PREFORK)]
     res = core.pmap(_dispatch, tasks)
     stateless = {}
     for r in res:
